@@ -77,6 +77,7 @@ def _worker_entry(batch, deadline, per_batch_timeout):
 
 
 def run_parallel(fn, ctx, items, nproc=None, deadline=None, chunk=20, per_batch_timeout=600, mark_dir=None):
+    per_batch_timeout = int(os.environ.get("VERIF_BATCH_TIMEOUT", per_batch_timeout))
     """Runs fn(ctx, item) for every item on forked workers (ctx is inherited, not pickled).
     Returns (results [(item, value)], skipped [item], crashed [{'item', 'detail'}]) — crashed = the
     items in flight when a worker process died (only attributed when mark_dir is given)."""
